@@ -58,3 +58,11 @@ pub fn dump(dir: &std::path::Path, n: u64) {
     let mut d = vcore::Draw::new(choices);
     cli::dump(dir, &mut d);
 }
+
+/// Development aid: run only the generator on a choice vector; number of tests.
+pub fn gen_only(choices: Vec<u32>) -> usize {
+    let mut d = vcore::Draw::new(choices);
+    let p = gen_proj::generate(&mut d, false);
+    gen_proj::files(&p).len();
+    p.tests.len()
+}
